@@ -6,7 +6,7 @@ import re
 import cfgmodel as cm
 import lib
 
-TARGETS = ["Props/C09.v", "SM/Script.v"]
+TARGETS = ["Props/C09.v", "SM/Script.v", "Regression/ConfigTmpOld.v"]
 
 MANIFEST = dict(
     text="Theorems over ALL operation histories (publish / remove / full-value import / routed temporary value) "
@@ -251,6 +251,25 @@ def gen_follower(rng, nops, nkeys, overtake):
     return {"class": "overtake" if planted else "follower", "ops": h.ops, "keys": h.keys}
 
 
+def gen_tmp_ahead_foreign(rng):
+    """known finding: a routed temporary value W1 arrives BEFORE an earlier foreign commit W0 of
+    the same key is replicated; W0 repeats the stored content (a no-op on the leader) but is
+    forced into the history on this node because the value is marked tmp"""
+    h = Hist(rng, 2)
+    k = h.keys[0]
+    for _ in range(rng.randrange(1, 4)):
+        h.add(k)
+    c0 = [o for o in h.ops if o[0] == "add"][-1][2]
+    v1 = c0 + "#"
+    h.ops.append(("tmp", k, v1))
+    if rng.random() < 0.5:
+        h.ops.append(("get", k))
+    h.add(k, c0)
+    h.add(k, v1)
+    h.final_queries()
+    return {"class": "tmp-ahead", "ops": h.ops, "keys": h.keys}
+
+
 def gen_big(rng):
     h = Hist(rng, 3)
     k = h.keys[0]
@@ -478,6 +497,8 @@ def run(chk, replay=None):
     for _ in range(60 if quick else 600):
         cases.append(gen_follower(rng, rng.randrange(3, 30), rng.choice([1, 2]), True))
     for _ in range(10 if quick else 100):
+        cases.append(gen_tmp_ahead_foreign(rng))
+    for _ in range(10 if quick else 100):
         cases.append(gen_big(rng))
     cases.append(gen_limit_case(rng))
     for _ in range(6 if quick else 60):
@@ -500,6 +521,8 @@ def run(chk, replay=None):
         for cls, what in fails:
             if c["class"] == "overtake":
                 key = "tmp-overtake"
+            elif c["class"] == "tmp-ahead":
+                key = "tmp-ahead-of-foreign-commit"
             else:
                 key = "%s:%s" % (c["class"], cls)
             chk.classify(key, "C09 %s (%s history): %s" % (cls, c["class"], what[:400]),
